@@ -50,6 +50,14 @@ Definition arith (o : aop) (a : durv) (b : Q) : res durv :=
   | _ => Ok (mkDur (dk a) (to_ticks (q_apply o (qval a) b)))
   end.
 
+(* the reflected forms (a plain number on the left: b + a, b - a, b * a, b / a): a new duration of the kind of the
+   duration operand *)
+Definition arith_r (o : aop) (b : Q) (a : durv) : res durv :=
+  match o with
+  | ODiv => if Qeq_bool (qval a) 0 then Err EZeroDivision else Ok (mkDur (dk a) (to_ticks (q_apply o b (qval a))))
+  | _ => Ok (mkDur (dk a) (to_ticks (q_apply o b (qval a))))
+  end.
+
 (* --- mutable state of a duration object: DirectDuration stores the rounded float;
        RatioDuration stores the ratio and caches the rounded beat count (cached_property),
        the ratio setter drops the cache *)
